@@ -293,6 +293,16 @@ func (e *Exec) wrapINT(t *Term, w uint8, sg bool, lo, hi int64, bnd bool) Int {
 	if bnd && inRange(lo, hi, w, sg) {
 		return e.mkSym(t, w, sg, lo, hi, true)
 	}
+	if !sg && w < 63 && bnd && lo >= 0 && !noRadix && t.Sort.K == SInt {
+		// unsigned truncation of a non-negative value: x mod 2^w through the mixed-radix decomposition
+		if _, r, ok := e.radixDivMod(Int{W: 64, Sg: true, S: &Term{Name: t.Name, Sort: t.Sort, Lo: lo, Hi: hi, Bnd: true, Rad: t.Rad, RadHi: t.RadHi, RadLo: t.RadLo, RadUnit: t.RadUnit, Sum: t.Sum}}, int64(1)<<uint(w)); ok {
+			if r.S == nil {
+				return normInt(Int{W: w, Sg: sg, C: r.C})
+			}
+			rl, rh, _ := e.ival(r)
+			return e.mkSym(r.S, w, sg, rl, rh, true)
+		}
+	}
 	e.wraps++
 	mod := new(big.Int).Lsh(big.NewInt(1), uint(w))
 	var expr string
@@ -740,6 +750,11 @@ func (e *Exec) intBinINTplain(op token.Token, x, y Int, tx, ty *Term, xl, xh int
 				if xok && xl >= 0 && xh <= y.C {
 					return x
 				}
+				if xok && xl >= 0 && !noRadix {
+					if _, r, ok := e.radixDivMod(x, pow2(k)); ok {
+						return r
+					}
+				}
 				t := e.def(S, fmt.Sprintf("(mod %s %d)", tx.Name, pow2(k)))
 				return e.mkSym(t, w, sg, 0, y.C, true)
 			}
@@ -779,6 +794,11 @@ func (e *Exec) intBinINTplain(op token.Token, x, y Int, tx, ty *Term, xl, xh int
 				panic(unsupported("INT mode: signed shift by >= width"))
 			}
 			return Int{W: w, Sg: sg}
+		}
+		if xok && xl >= 0 && y.C < 62 && !noRadix {
+			if q, _, ok := e.radixDivMod(x, int64(1)<<uint(y.C)); ok {
+				return q
+			}
 		}
 		f := new(big.Int).Lsh(big.NewInt(1), uint(y.C))
 		t := e.def(S, "(div "+tx.Name+" "+f.String()+")")
